@@ -199,6 +199,7 @@ from ..shapes import notnone_forms
 OWN = {'P': 'project_index', 'L': 'lecturer_index'}
 SORT_OF_LEN = {'num_projects': 'P', 'num_lecturers': 'L'}
 UQ_ATTR = {'proj_upper_quotas': 'P', 'lec_upper_quotas': 'L'}
+OTHER_Q_ATTR = {'proj_lower_quotas': 'P', 'lec_lower_quotas': 'L', 'lec_targets': 'L'}     # per-agent vectors that are NOT the capacity
 LEC_KEYS = ('lecturer_index', 'lecturerID')
 PROJ_KEYS = ('project_index', 'projectID')
 
@@ -305,6 +306,8 @@ class Structures:
         k = t[0]
         if k == 'attr' and lp.model_attr(t) in UQ_ATTR:
             return ('UQ', UQ_ATTR[lp.model_attr(t)])
+        if k == 'attr' and lp.model_attr(t) in OTHER_Q_ATTR:
+            return ('OTHERQ', lp.model_attr(t), OTHER_Q_ATTR[lp.model_attr(t)])
         if k == 'accum':
             g = self._groups(t)
             if g is not None:
@@ -358,6 +361,10 @@ class Q:
         self.kind, self.val = kind, val
 
 
+class NeedChoice(Exception):
+    """the verdict depends on where a tied pair is listed relative to the assignment: the driver evaluates both placements"""
+
+
 class StabEval(TermEval):
     def __init__(self, v, st, asg):
         TermEval.__init__(self)
@@ -367,6 +374,7 @@ class StabEval(TermEval):
         self.kind_errors = []
         self.in_rows = 0
         self.breaks = 0
+        self.tie_before = None
 
     # ---- values ---------------------------------------------------------------------------------
     def truth(self, v):
@@ -413,6 +421,8 @@ class StabEval(TermEval):
             return None if self.none(sort) else Abs('elem', ('WORST', sort))
         if kind in ('COUNT', 'UQ'):
             return Abs('elem', (kind, sort))
+        if kind == 'OTHERQ':
+            return Abs('elem', ('OTHERQ', sort, cls[1]))
         if kind == 'FREE':
             return Abs('free', sort)              # upper quota - number of assignees (>= 0 by the precondition)
         if kind == 'GROUP':
@@ -433,6 +443,20 @@ class StabEval(TermEval):
 
     def ev(self, t):
         k = t[0]
+        if k == 'rankprefix':
+            if not self.v['PREFERS']:
+                return False
+            if self.tie_before is None:
+                raise NeedChoice()
+            return self.tie_before
+        if k == 'posbefore':
+            if self.v['PREFERS']:
+                return True
+            if self.v['ISSELF'] or not self.v['SEQ']:
+                return False
+            if self.tie_before is None:
+                raise NeedChoice()
+            return self.tie_before
         if k == 'bvar':
             if self.pair is not None and t == self.pair:
                 return Abs('obj', 'pair')
@@ -493,6 +517,18 @@ class StabEval(TermEval):
                 return Q('all' if x.kind == 'any' else 'any', not x.val)
             return not self.truth(x)
         if k == 'cmp' and t[1] in ('In', 'NotIn'):
+            # x in {z for z in range(N) if g(z)}  with x an agent index of the pair examined (within range(N): C10) is g(x)
+            coll = t[3]
+            if coll[0] == 'call' and coll[1] in (S('set'), S('frozenset'), S('list'), S('tuple')) and len(coll[2]) == 1 and not coll[3]:
+                coll = coll[2][0]
+            if coll[0] == 'comp' and len(coll[1]) == 1 and coll[2] == coll[1][0][0]:
+                b_, g_ = coll[1][0]
+                d_ = b_[3]
+                x_ = t[2]
+                bound = {'project_index': 'num_projects', 'lecturer_index': 'num_lecturers'}.get(x_[2]) if x_[0] == 'attr' else None
+                if bound and d_[0] == 'call' and d_[1] == S('range') and len(d_[2]) == 1 and lp.model_attr(d_[2][0]) == bound:
+                    r = self.truth(self.ev(replace(g_, b_, x_)))
+                    return r if t[1] == 'In' else not r
             a, b = self.ev(t[2]), self.ev(t[3])
             if isinstance(b, Abs) and b.tag == 'arr' and b.data[0] in ('WORSTD', 'GROUP') and (b.data[0] == 'WORSTD' or b.data[1] == 'dict'):
                 self.own_index(a, b.data[-1], 'key test')
@@ -511,6 +547,8 @@ class StabEval(TermEval):
                 return Abs('count+1', (a if el(a, 'COUNT') else b).data[1])
             if isinstance(a, int) and isinstance(b, int):
                 return a - b if t[1] == 'Sub' else a + b
+            if a is None or b is None:
+                raise TRaises("TypeError: unsupported operand type(s) for %s: 'NoneType'" % OPS.get(t[1], t[1]))
             raise Unknown('arithmetic %s on %r, %r' % (t[1], a, b))
         if k == 'call':
             f = t[1]
@@ -594,6 +632,8 @@ class StabEval(TermEval):
                 s = y.data[1]
                 lt, eq = (v['PPREF'], v['PEQ']) if s == 'P' else (v['LPREF'], v['LEQ'])
                 return order_cmp(o, 'lt' if lt else 'eq' if eq else 'gt')
+            if (el(x, 'COUNT') or (isinstance(x, Abs) and x.tag == 'count+1')) and el(y, 'OTHERQ'):
+                raise KindError('the number of assignees is compared with %s: room for another student is decided by the upper quota' % y.data[2])
             # count against upper quota (count <= quota by the precondition)
             if el(x, 'COUNT') and el(y, 'UQ'):
                 if x.data[1] != y.data[1]:
@@ -651,6 +691,40 @@ class StabEval(TermEval):
                 return 'index'
         return None
 
+    def slice_guard(self, dom):
+        """row[:U] as the domain of the pair loop -> guard term deciding whether the representative pair is inside, or None.
+        Rows are in non-decreasing rank (reader order), ranks of tie groups are dense:
+          U = row.index(assigned)        the pairs LISTED in front of the student's own pair: the strictly preferred ones plus,
+                                         of the pairs tied with it, those that happen to be listed first   ('posbefore')
+          U = assigned.rank_student - 1  positions 0 .. R-2: only strictly preferred pairs, but not all of them once a tie
+                                         precedes (a pair of rank r sits at position >= r - 1)             ('rankprefix')
+          U = len(row)                   the whole row"""
+        if not (dom[0] == 'slice' and dom[2] in (NONE, C(0))):
+            return None
+        try:
+            d2 = self.ev(dom[1])
+        except Unknown:
+            return None
+        if not (isinstance(d2, Abs) and d2.tag == 'row' and d2.data == 'value'):
+            return None
+        u = dom[3]
+        while u[0] == 'ite':
+            u = u[2] if self.truth(self.ev(u[1])) else u[3]
+        if u == NONE or u == CALL(S('len'), [dom[1]]):
+            return TRUE
+        if u[0] == 'call' and u[1] == A(dom[1], 'index') and len(u[2]) == 1:
+            who = self.ev(u[2][0])
+            if who is None:
+                raise TRaises('ValueError: None is not in list')
+            if who == Abs('obj', 'assigned'):
+                return ('posbefore',)
+            return None
+        if u[0] == 'bin' and u[1] == 'Sub' and u[3] == C(1):
+            x = self.ev(u[2])
+            if x == Abs('attr', ('assigned', 'rank_student')):
+                return ('rankprefix',)
+        return None
+
     def partial_rows(self, dom):
         for x in walk(dom):
             if lp.model_attr(x) == 'pairs' or x == self.asg:
@@ -691,6 +765,11 @@ class StabEval(TermEval):
             self.pair_guard = None
             while dom[0] == 'ite':
                 dom = dom[2] if self.truth(self.ev(dom[1])) else dom[3]
+            sg = self.slice_guard(dom)
+            if sg is not None:
+                self.pair = b
+                self.pair_guard = None if sg == TRUE else sg
+                return
             if dom[0] == 'comp' and len(dom[1]) == 1 and dom[2] == dom[1][0][0]:
                 b2, g = dom[1][0]
                 try:
@@ -738,8 +817,16 @@ class StabEval(TermEval):
                     v_ = v_[2] if self.truth(self.ev(v_[1])) else v_[3]
                 if self.in_rows and v_[0] == 'comp' and len(v_[1]) == 1 and v_[2] == v_[1][0][0] and self.pair is None:
                     pass                      # a filtered view of the row: its filter is evaluated when the view is looped over
+                elif self.in_rows and self.pair is None and self.slice_guard(v_) is not None:
+                    pass                      # (row.index(None) raises inside slice_guard)
                 elif self.in_rows:
-                    self.ev(e.value)          # evaluation point: errors surface here even when the value is never used
+                    try:
+                        self.ev(e.value)          # evaluation point: errors surface here even when the value is never used
+                    except Unknown as u_:
+                        # arithmetic on two present values does not raise (its operands were evaluated, so their errors have
+                        # surfaced); the value itself is looked at where it is used
+                        if not str(u_).startswith(('arithmetic', 'len of <row')):
+                            raise
             elif k == 'call':
                 if self.in_rows or any(x.kind == 'for' and self.loop_kind(x) for x, _ in iter_effects(e.body)):
                     try:
@@ -789,6 +876,8 @@ class StabEval(TermEval):
                     dom = dom[2] if self.truth(self.ev(dom[1])) else dom[3]
                 if dom[0] == 'comp' and len(dom[1]) == 1 and dom[2] == dom[1][0][0]:
                     dom = dom[1][0][0][3]              # a filtered view of the row: the filter is applied on entry
+                elif self.slice_guard(dom) is not None:
+                    dom = dom[1]                       # a leading part of the row: which pairs are inside is decided on entry
                 d = self.ev(dom)
             except (Unknown, KindError, TRaises):
                 return None
@@ -837,10 +926,15 @@ def run_terms(rep, repo, tier):
     own = [v for v in vals if v['ISSELF']]
     stops_at_own = bool(own) and all(breaks_at(v) for v in own)
     rep.extra['row_left_at_own_pair'] = stops_at_own
-    for v in vals:
+    work = [(v, None) for v in vals]
+    wi = 0
+    while wi < len(work):
+        v, tie_before = work[wi]
+        wi += 1
         if stops_at_own and not (v['UNASSIGNED'] or v['PREFERS'] or v['SEQ']):
             continue
         se = StabEval(v, st, asg)
+        se.tie_before = tie_before
         blocks = spec_blocks(v)
         try:
             try:
@@ -848,6 +942,10 @@ def run_terms(rep, repo, tier):
                 verdict = ('falls off the end', None)
             except Leave as lv:
                 verdict = ('returns', lv.value, getattr(lv, 'in_rows', 0))
+        except NeedChoice:
+            # a pair tied with the assignment may be listed before or after it: both placements are evaluated
+            work += [(v, True), (v, False)]
+            continue
         except TRaises as r:
             errs.append((v, str(r)))
             continue
@@ -879,7 +977,7 @@ def run_terms(rep, repo, tier):
             mism.append((v, 'leaves the row at a pair the student prefers to his assignment', blocks))
             continue
         if val != (not blocks):
-            mism.append((v, 'returns %s' % val, blocks))
+            mism.append((v, 'returns %s' % val + ('' if tie_before is None else ' when the pair is %s the part of the row that is examined (ties shift positions against ranks)' % ('inside' if tie_before else 'outside')), blocks))
     if kinds:
         rep.fail('C06.R1', f.where, 'every structure is indexed by, and compared with, the value of its own sort', got=sorted(set(kinds))[0],
                  want='project structures by pair.project_index, lecturer structures by pair.lecturer_index, the assignment list by the student examined',
@@ -1031,6 +1129,8 @@ def check_caller(rep, repo):
             c_ = t[2][0]
             return ('accum', ('list', ()), (('extend', NONE, c_[2], c_[1]),), 'rows', 0)
         return t
+    if len([p_ for p_ in wn.params if p_ != 'self']) > 0 and call.args and any(call.args[0] == e.ret for e in wn_calls):
+        rv2 = call.args[0]                   # a helper with a mode parameter: the list as check_stability receives it
     rv2 = flattened_rows(rv2)
     pe = placeholder_extend(rv2)
     if pe is not None:
@@ -1055,6 +1155,13 @@ def check_caller(rep, repo):
         return gs
     uses_var = bool(others) and all(len(guards_of(en)) == 1 and selects_set_variable(guards_of(en)[0]) for en in others)
     none_neg = len(nones) == 1 and contains(nones[0][3][-1][1], lambda x: x[0] == 'not')
+    if len(nones) == 1 and rv2[0] == 'accum' and len(rv2) > 3:
+        own = [x for x in walk(nones[0][3][-1][1]) if x[0] in ('carried', 'prefix') and x[1] == rv2[3]]
+        if own:
+            # "nothing was added for this row" decided by the length of the list being built, before and after the row: the
+            # interpreter has one symbol for the list inside an iteration, so the two reads cannot be told apart here
+            rep.inconclusive('C06.R4', wn.where, 'the "no pair selected" test of the per-student list is a flag or a test over the row', got='reads the list being built: ' + show(nones[0][3][-1][1])[:100])
+            return
     if none_neg:
         # the "nothing selected" test must be about THIS row: a flag carried over from earlier rows is stale
         g_none = nones[0][3][-1][1]
